@@ -371,6 +371,7 @@ type c11Case struct {
 	TDone   int64      `json:"tdone"`
 	DataOK  bool       `json:"data_ok"`
 	NDgram  int        `json:"ndgram"`
+	Storm   bool       `json:"storm"` // more than 20000 datagrams: the run was cut off
 }
 
 func c11Ver(v protocol.Version) int {
@@ -798,6 +799,10 @@ func c11Pump(lab *vLab, mask []string, limit time.Duration, onDgram func(vDatagr
 		if stop() && len(helds) == 0 {
 			break
 		}
+		if delivered > 20000 {
+			// the endpoints keep answering each other without virtual time advancing: give up
+			break
+		}
 		if progressed {
 			continue
 		}
@@ -874,6 +879,7 @@ func runC11(t *testing.T, id int, gen string, c, s c11Cfg, resume bool, mask []s
 	next := c11Pump(lab, mask, limit, wire.feed, lab.bothDone)
 	res.TDone = lab.Net.now().Milliseconds()
 	res.NDgram = next
+	res.Storm = next > 20000
 	res.Client.Done, res.Server.Done = lab.Client.handshakeDone(), lab.Server.handshakeDone()
 	for _, x := range []struct {
 		p    *vPeer
